@@ -4,12 +4,14 @@ import (
 	"fmt"
 	"io"
 	"net"
+	"net/http"
 	"net/http/httptest"
 	"os"
 	"path/filepath"
 	"runtime"
 	"strings"
 	"sync/atomic"
+	"syscall"
 	"time"
 
 	"github.com/whawty/auth/sasl"
@@ -581,6 +583,110 @@ func suiteV10abandon(c *vctx) {
 	}
 }
 
+// descriptor exhaustion: the process runs out of file descriptors while a client connects (a burst
+// of idle clients, a low `ulimit -n`): accept(2) fails with EMFILE. When descriptors are available
+// again every frontend must still be there and answer.
+func suiteV10fd(c *vctx) {
+	if c.shard != 0 {
+		return
+	}
+	rounds := 2
+	if c.thorough() {
+		rounds = 10
+	}
+	for i := 0; i < rounds; i++ {
+		a, err := newVAgent(c, fmt.Sprintf("fd%d", i), 1, "", "", "", "")
+		if err != nil {
+			continue
+		}
+		a.iface.Init("root", "Root-Passw0rd")
+		a.iface.Add("u1", "Init-u1", false)
+		sock := filepath.Join(c.work, fmt.Sprintf("fd%d.sock", i))
+		go runSaslAuthSocket(sock, a.iface) //nolint:errcheck
+		srv := httptest.NewServer(a.mux)
+		for k := 0; k < 100; k++ {
+			if _, err := os.Stat(sock); err == nil {
+				break
+			}
+			time.Sleep(5 * time.Millisecond)
+		}
+		// a first request on each frontend (everything is up)
+		ok0, _, err0 := sasl.NewClient(sock).Auth("u1", "Init-u1", "s", "r")
+		var old syscall.Rlimit
+		syscall.Getrlimit(syscall.RLIMIT_NOFILE, &old)
+		ents, _ := os.ReadDir("/proc/self/fd")
+		low := old
+		low.Cur = uint64(len(ents) + 48)
+		if low.Cur > old.Max {
+			low.Cur = old.Max
+		}
+		syscall.Setrlimit(syscall.RLIMIT_NOFILE, &low)
+		var held []*os.File
+		for len(held) < 4096 {
+			f, err := os.Open("/dev/null")
+			if err != nil {
+				break
+			}
+			held = append(held, f)
+		}
+		exhausted := len(held) < 4096
+		var conns []net.Conn
+		for k := 0; k < 3 && len(held) > 0; k++ {
+			// exactly one free descriptor: the client's socket takes it, the server's accept finds none
+			held[len(held)-1].Close()
+			held = held[:len(held)-1]
+			if cn, err := net.Dial("unix", sock); err == nil {
+				conns = append(conns, cn)
+			}
+			if cn, err := net.Dial("tcp", srv.Listener.Addr().String()); err == nil {
+				conns = append(conns, cn)
+			}
+			time.Sleep(40 * time.Millisecond)
+		}
+		for _, f := range held {
+			f.Close()
+		}
+		for _, cn := range conns {
+			cn.Close()
+		}
+		syscall.Setrlimit(syscall.RLIMIT_NOFILE, &old)
+		time.Sleep(50 * time.Millisecond)
+		// every frontend still answers
+		res := make(chan string, 2)
+		go func() {
+			ok, _, err := sasl.NewClient(sock).Auth("u1", "Init-u1", "s", "r")
+			res <- fmt.Sprintf("sasl ok=%v err=%v", ok, err)
+		}()
+		go func() {
+			req, _ := http.NewRequest("GET", srv.URL+"/basic-auth", nil)
+			req.SetBasicAuth("u1", "Init-u1")
+			resp, err := (&http.Client{Timeout: 4 * time.Second}).Do(req)
+			st := -1
+			if err == nil {
+				st = resp.StatusCode
+				resp.Body.Close()
+			}
+			res <- fmt.Sprintf("http status=%d", st)
+		}()
+		got := ""
+		good := true
+		for k := 0; k < 2; k++ {
+			select {
+			case r := <-res:
+				got += r + "; "
+				good = good && (r == "sasl ok=true err=<nil>" || r == "http status=200")
+			case <-time.After(5 * time.Second):
+				good = false
+				got += "no answer; "
+			}
+		}
+		c.emit(fmt.Sprintf("law.C10.agent_keeps_accepting after-descriptor-exhaustion before=%v/%v exhausted=%s %s", ok0, err0, vtf(exhausted), vxs(got)), vtf(good && ok0))
+		go srv.Close()
+		os.Remove(sock)
+		os.RemoveAll(a.dirPath)
+	}
+}
+
 func mode2(m string) string {
 	if m == "" || m == "local" {
 		return m
@@ -592,6 +698,7 @@ func init() {
 	vsuites["v10"] = suiteV10
 	vsuites["v10adv"] = suiteV10adv
 	vsuites["v10ab"] = suiteV10abandon
+	vsuites["v10fd"] = suiteV10fd
 }
 
 var _ = filepath.Join
